@@ -64,13 +64,17 @@ impl Peer {
             match parse(&chunk) {
                 Some(msg) => {
                     let h = msg.header();
-                    let body_id: i64 = msg.body().deserialize::<u32>().map(|x| x as i64).unwrap_or(-1);
+                    let body_id: i64 = first_u32(&msg);
                     let ev = json!({"ev":"Wire","off":off,"len":n,"serial":h.primary().serial_num().get(),
                         "type": type_name(msg.message_type()),
                         "member": h.member().map(|m| m.to_string()).unwrap_or_default(),
                         "noreply": h.primary().flags().contains(zbus::message::Flags::NoReplyExpected),
                         "reply_serial": h.reply_serial().map(|s| s.get()).unwrap_or(0),
                         "id": body_id});
+                    let mut ev = ev;
+                    if self.sh.lock().unwrap().log_io {
+                        ev["bytes"] = json!(chunk);
+                    }
                     emit(&self.sh, ev);
                     self.seen.push(Seen { off, len: n, msg });
                     out.push(self.seen.len() - 1);
@@ -138,7 +142,7 @@ pub fn describe(m: &Message) -> J {
     let h = m.header();
     json!({"type": type_name(m.message_type()), "serial": h.primary().serial_num().get(),
            "reply_serial": h.reply_serial().map(|s| s.get()).unwrap_or(0),
-           "id": m.body().deserialize::<u32>().map(|x| x as i64).unwrap_or(-1),
+           "id": first_u32(m),
            "member": h.member().map(|m| m.to_string()).unwrap_or_default(),
            "seq": seq_of(m)})
 }
@@ -147,4 +151,21 @@ pub fn describe(m: &Message) -> J {
 pub fn seq_of(m: &Message) -> u64 {
     let s = format!("{:?}", m.recv_position());
     s.chars().filter(|c| c.is_ascii_digit()).collect::<String>().parse().unwrap_or(0)
+}
+
+/// The id carried in a message body: the first `u` of the body (read raw, so that bodies that also
+/// carry fds can be identified without the fds).
+pub fn first_u32(m: &Message) -> i64 {
+    let sig = m.body().signature().to_string();
+    if !(sig.starts_with('u') || sig.starts_with("(u")) {
+        return -1;
+    }
+    let b = m.data().bytes();
+    let bl = m.primary_header().body_len() as usize;
+    if bl < 4 || b.len() < bl {
+        return -1;
+    }
+    let s = &b[b.len() - bl..];
+    let a = [s[0], s[1], s[2], s[3]];
+    (if b[0] == b'l' { u32::from_le_bytes(a) } else { u32::from_be_bytes(a) }) as i64
 }
